@@ -46,6 +46,8 @@ type harnessFile struct {
 	includes []string // other harness-tree files overlaid into the same directory (helpers)
 	extra    map[string]string // additional overlay: repo-relative target -> repo-relative source (current tree)
 	replayFn map[string]string
+	reuse    []string // "<ID>/<file> [Func ...]": harnesses of another property run here in panic-only mode
+	panicOnly bool
 	bounds   []string
 	notes    []string
 }
@@ -88,6 +90,8 @@ func parseHarness(path string) (*harnessFile, error) {
 				return nil, fmt.Errorf("%s: bad overlay directive %q", path, arg)
 			}
 			h.extra[strings.TrimSpace(parts[0])] = strings.TrimSpace(parts[1])
+		case "reuse":
+			h.reuse = append(h.reuse, arg)
 		case "bound":
 			h.bounds = append(h.bounds, arg)
 		case "outside", "assume", "note":
@@ -105,7 +109,7 @@ func parseHarness(path string) (*harnessFile, error) {
 			h.funcs = append(h.funcs, fd.Name.Name)
 		}
 	}
-	if h.dir == "" {
+	if h.dir == "" && len(h.reuse) == 0 {
 		return nil, fmt.Errorf("%s: missing //verif:dir directive", path)
 	}
 	return h, nil
@@ -264,6 +268,7 @@ func run(id, tier, repo, verif, only string, workers int, trace, noReplay bool, 
 		return fail("no harness files in %s", hdir)
 	}
 	var hfs []*harnessFile
+	var bounds0, notes0 []string
 	for _, f := range files {
 		if strings.HasSuffix(f, "_native.go") {
 			continue
@@ -271,6 +276,39 @@ func run(id, tier, repo, verif, only string, workers int, trace, noReplay bool, 
 		h, err := parseHarness(f)
 		if err != nil {
 			return fail("%v", err)
+		}
+		for _, r := range h.reuse {
+			fields := strings.Fields(r)
+			matches, _ := filepath.Glob(filepath.Join(verif, "harness", fields[0]))
+			if len(matches) == 0 {
+				return fail("reuse %s: no such harness file", r)
+			}
+			for _, m := range matches {
+				h2, err := parseHarness(m)
+				if err != nil {
+					return fail("reuse %s: %v", r, err)
+				}
+				h2.panicOnly = true
+				h2.bounds, h2.notes = nil, nil
+				if len(fields) > 1 && len(h2.funcs) > 0 {
+					var keep []string
+					for _, f := range h2.funcs {
+						for _, want := range fields[1:] {
+							if f == want {
+								keep = append(keep, f)
+							}
+						}
+					}
+					h2.funcs = keep
+				}
+				hfs = append(hfs, h2)
+			}
+		}
+		if h.dir == "" {
+			// a pure list of reuse directives: its bounds and notes still count
+			bounds0 = append(bounds0, h.bounds...)
+			notes0 = append(notes0, h.notes...)
+			continue
 		}
 		hfs = append(hfs, h)
 	}
@@ -390,7 +428,7 @@ func run(id, tier, repo, verif, only string, workers int, trace, noReplay bool, 
 	inconclusive := []string{}
 	allIntr, allStubs, allEnc := map[string]bool{}, map[string]bool{}, map[string]bool{}
 	var totStates, totSteps int64
-	var bounds, notes []string
+	bounds, notes := bounds0, notes0
 	qTimeout := 10000
 	maxSteps := int64(5_000_000)
 	maxPaths := int64(2_000_000)
@@ -457,6 +495,7 @@ func run(id, tier, repo, verif, only string, workers int, trace, noReplay bool, 
 				Prog: prog, Stubs: stubs, Summaries: sums, MaxSteps: maxSteps, MaxPaths: maxPaths,
 				QueryTimeout: qTimeout, Workers: workers, Solver: solverKind, Trace: trace,
 				Deadline: time.Now().Add(budget), Tier: tier, KnownActive: knownActive, DropGo: dropgo,
+				PanicOnly: h.panicOnly,
 			}
 			if debugVector != "" {
 				b, err := os.ReadFile(debugVector)
@@ -746,6 +785,9 @@ func nativeReplay(repo, scratch string, overlayFiles map[string]string, dirs map
 		cmd := exec.Command("go", "test", "-v", "-vet=off", "-count=1", "-overlay", ovPath, "-run", "^TestVerifReplay$", "-timeout", "10m", "./"+dir)
 		cmd.Dir = repo
 		cmd.Env = append(goEnv(), "VERIF_REPLAY="+vecPath, "VERIF_TIER="+tier, "GOCACHE="+goCache())
+		if hs[0].panicOnly {
+			cmd.Env = append(cmd.Env, "VERIF_PANIC_ONLY=1")
+		}
 		out, err := cmd.CombinedOutput()
 		text := string(out)
 		if lf := os.Getenv("SYMGO_NATIVELOG"); lf != "" {
